@@ -37,7 +37,7 @@ Cfg == [version |-> Version, size |-> Size, maxTxsBytes |-> MaxTxsBytes, maxTxBy
 Reject   == [ok |-> FALSE, gas |-> 0, prio |-> 0, sender |-> ""]
 Verdicts == {Reject} \cup [ok : {TRUE}, gas : Gases, prio : Prios, sender : Senders]
 
-NewCount == Cardinality({i \in DOMAIN st.inflight : st.inflight[i].kind = "new"})
+NewCount == Cardinality({i \in DOMAIN st.inflight : st.inflight[i].kind # "recheck"})
 
 \* blocks: sequences of distinct txs, any of which may be unknown to this mempool
 Blocks == UNION {{s \in [1..n -> Txs] : \A i, j \in 1..n : i # j => s[i] # s[j]} : n \in 0..MaxBlock}
@@ -54,11 +54,18 @@ DoAdmit(tx, peer) ==
 \* i: which outstanding request is answered (v0: always the oldest)
 DoResponse(i, v) ==
   /\ i \in DOMAIN st.inflight
-  /\ Version = "v0" => i = 1
+  /\ Version = "v0" => i = FirstLive(st)
   /\ st.inflight[i].kind = "new"
   /\ LET r == IF Version = "v0" THEN ResponseV0(Cfg, st, v) ELSE ResponseV1(Cfg, st, i, v) IN
        /\ st' = r.st
        /\ act' = [name |-> "CheckTx_Response", tx |-> st.inflight[i].tx, i |-> i, v |-> v, res |-> r.res]
+
+\* enabled only with Weak_NonAtomicAdmission (no "adding" request exists otherwise)
+DoInsert(i) ==
+  /\ i \in DOMAIN st.inflight
+  /\ st.inflight[i].kind = "adding"
+  /\ st' = InsertV0(Cfg, st, i).st
+  /\ act' = [name |-> "CheckTx_Insert", tx |-> st.inflight[i].tx, i |-> i]
 
 DoRecheck(i, v) ==
   /\ i \in DOMAIN st.inflight
@@ -100,6 +107,7 @@ DoReapBG(b, g) ==
 NextCore ==
   \/ \E tx \in Txs, p \in Peers : DoAdmit(tx, p)
   \/ \E i \in DOMAIN st.inflight, v \in Verdicts : DoResponse(i, v) \/ DoRecheck(i, v)
+  \/ \E i \in DOMAIN st.inflight : DoInsert(i)
   \/ \E txs \in Blocks : \E oks \in [DOMAIN txs -> BOOLEAN] :
        \E npre \in {KeepF} \cup PreLimits, npost \in {KeepF} \cup PostLimits : DoUpdate(txs, oks, npre, npost)
   \/ DoFlush
